@@ -20,3 +20,18 @@ pub fn env_dependent() -> usize {
 pub fn host_layout<T>() -> usize {
     std::mem::size_of::<T>()
 }
+
+/// N-DET: an address used as identity, remembered in interior-mutable state.
+pub struct Remember {
+    last: std::cell::Cell<*const String>,
+}
+
+impl Remember {
+    pub fn seen(&self, s: &String) -> bool {
+        let p = s as *const String;
+        self.last.replace(p) == p
+    }
+}
+
+/// N-DET: state shared between calls.
+pub static CALLS: std::sync::atomic::AtomicUsize = std::sync::atomic::AtomicUsize::new(0);
